@@ -58,3 +58,11 @@ BENIGN += [
     dict(id="c09-surrogate-predicate-chained", props=["C09"], file=PARSE,
          old="        return codepoint >= 0xD800 and codepoint <= 0xDBFF", new="        return 0xD800 <= codepoint <= 0xDBFF"),
 ]
+
+BENIGN += [
+    dict(id="c14-key-determined-pattern-memo", props=["C14", "C16"], file=S + "function_extensions/match.py",
+         old="        try:\n            # re.fullmatch caches compiled patterns internally\n            return bool(re.fullmatch(map_re(pattern), string))",
+         new="        try:\n            mapped = self._mapped.get(pattern) if hasattr(self, '_mapped') else None\n            if mapped is None:\n                mapped = map_re(pattern)\n            return bool(re.fullmatch(mapped, string))"),
+    dict(id="c14-local-accumulator", props=["C14", "C16"], file=S + "node.py",
+         old="        return [node.value for node in self]", new="        out = []\n        for node in self:\n            out.append(node.value)\n        return out"),
+]
